@@ -147,3 +147,19 @@ def share_switch_names(spec: dict) -> t.Optional[dict]:
             for p in ps:
                 p[2]['name'] = ps[0][2]['name']
     return sp if shared else None
+
+
+def with_inheritance(spec: dict) -> t.Optional[dict]:
+    """Variant in which every non-input node class derives from the previous plain node class of the listing (node
+    classes of one pipeline forming an inheritance chain). None if fewer than two eligible nodes."""
+    sp = json.loads(json.dumps(spec))
+    names = [n for n, nd in sp['nodes'].items() if not nd.get('generic') and not nd.get('defect')]
+    if len(names) < 3:
+        return None
+    prev = None
+    for n in names:
+        nd = sp['nodes'][n]
+        if prev is not None and sp['nodes'][prev].get('mode', 'async') == nd.get('mode', 'async'):
+            nd['extends'] = prev
+        prev = n
+    return sp
